@@ -203,9 +203,14 @@ def one_case(ctx, rng, ci):
             except Exception:
                 ctx.count("vmap_constraints_skipped")
     # assess
-    ea = lib("assess", lambda: gf.assess(e0.get_choices(), ra))
+    # choices from a trace made with array-valued arguments: with a traced switch index assess
+    # needs every branch's (masked) addresses, which only such a trace's choice map carries
+    # (DESIGN.md 13.4); a python-int index yields the selected branch's map only
+    e_arr = lib("simulate", lambda: gf.simulate(key, ja))
+    own = e_arr.get_choices() if not isinstance(e_arr, Exception) else e0.get_choices()
+    ea = lib("assess", lambda: gf.assess(own, ja))
     if not isinstance(ea, Exception):
-        jas = lib("assess", lambda: jax.jit(gf.assess)(e0.get_choices(), ja))
+        jas = lib("assess", lambda: jax.jit(gf.assess)(own, ja))
         if isinstance(jas, Exception):
             report("assess", "jit", f"raised {common.exc_mechanism(jas)}: {str(jas)[:120]}")
         else:
